@@ -6,7 +6,7 @@ import re
 from .lib import decision, guards, paths
 from .lib.mir import AnchorLost
 
-CONFIGS_QUICK = ["A"]
+CONFIGS_QUICK = ["A", "R"]
 CONFIGS_THOROUGH = ["A", "R", "ASYNCSTD", "SMOL", "NIO", "GLOMMIO"]
 TECHNIQUE = "event-order rules (reachability avoiding an event, dominance) on the built MIR of the poll functions and of howl's coroutine; atomic-ordering table"
 LEVEL_TEXT = ('Decides clauses C18-a/b: in UntilInterrupt::poll no path from the publication of the waker (WAKER.swap, or the WAKER mutex acquisition on glommio) to '
